@@ -227,7 +227,17 @@ func runC05(c *Ctx) {
 				cl = cl[:i]
 			}
 			r.hist("model_end_" + cl)
-			if end != "finished" && end != "done" {
+			// decidable hypotheses of the C05 run theorems on this history: topo (⇒ Acyclic) must hold;
+			// benign (no chunk count redefined while re-attaching) is the extra hypothesis of
+			// restart_completes_same_completion_set: histories without it are counted, not covered by it
+			if v := schedHypNote(detail, "topo"); v == "no" {
+				r.violate(Violation{Kind: "correspondence", Key: "C05:hypothesis-fails-on-real-run:topo",
+					What:   "the graph of a real run is not topologically numbered (hypothesis Acyclic of restart_completes): " + detail,
+					Input:  map[string]interface{}{"program": cs.prog.Src, "seed": cs.spec.Seed, "trace": res.Trace},
+					Broken: "hypotheses of Props.C05.restart_completes hold on real runs"})
+			}
+			r.hist("hyp_benign_" + schedHypNote(detail, "benign"))
+			if end != "finished" {
 				r.violate(Violation{Kind: "correspondence", Key: "C05:model-not-finished:" + cl,
 					What:   "the restarted pipestance completed but the model's end state is not finished: " + detail,
 					Input:  map[string]interface{}{"program": cs.prog.Src, "crash_at": cs.spec.CrashAt, "seed": cs.spec.Seed, "fullreset": cs.spec.FullReset, "trace": res.Trace},
@@ -270,7 +280,7 @@ func runC06(c *Ctx) {
 	n := 40
 	perProg := 6
 	if c.Thorough {
-		n = 300
+		n = 100
 		perProg = 0
 	}
 	progs := rtPrograms(c, n/2, GenOpts{})
@@ -380,7 +390,7 @@ func runC06(c *Ctx) {
 		// The lost job is alone in flight or not, as the program and the schedule have it.
 		nlost := 1
 		if perProg == 0 {
-			nlost = len(jobs)
+			nlost = 4
 		}
 		for _, ji := range c.Rng.Perm(len(jobs)) {
 			if nlost == 0 {
@@ -507,7 +517,12 @@ func runC06(c *Ctx) {
 				}
 			}
 		}
-		if ok, detail, done := replayInModel(c, res); done && !ok {
+		ok, detail, done := replayInModel(c, res)
+		if done && ok && strings.Contains(detail, "note=reopened-finished-node") {
+			// the `…_partial` transitive theorems (hypothesis reopened = false) do not cover this history
+			r.hist("histories_with_reopened_node")
+		}
+		if done && !ok {
 			r.violate(Violation{Kind: "correspondence", Key: "C06:sched-replay-reject:" + classifyReject(detail),
 				What:   "the Lean Sched model rejects a real failure history: " + detail,
 				Input:  map[string]interface{}{"program": cs.prog.Src, "fault": cs.job + ":" + cs.kind, "seed": cs.spec.Seed, "trace": res.Trace},
